@@ -171,15 +171,22 @@ theorem v19Trace_reach (cfg : Cfg) : Reach cfg (v19Trace cfg) := by
     | mk b l st => cases b <;> cases l <;> simp [waitRun, waitStep, PState.spawn, PState.init, upd, sent]
 
 /-- V19 (fixed): with unbuffered signal channels, after `Wait` has returned (first interrupt)
-core 1 sits in its send, is not listed any more, and therefore is never received: a goroutine
-blocked forever behind the host's wait. With the buffered channel the same trace leaves core 1
-finished. -/
+core 1 sits in its send, is not listed any more, and stays there whatever happens afterwards
+(further spawns, further calls of `Wait`): a goroutine blocked forever behind the host's wait.
+With the buffered channel the same trace leaves core 1 finished. -/
 theorem v19_counterexample :
-    let s := v19Trace ⟨false, false, false⟩
-    Reach ⟨false, false, false⟩ s ∧ s.wait = .returned (some (0, .fatal)) ∧ s.core 1 = .sending (some .terminate)
-      ∧ s.listed = [] ∧ waitStep ⟨false, false, false⟩ s = none := by
-  refine ⟨v19Trace_reach _, ?_, ?_, ?_, ?_⟩ <;>
-    simp [v19Trace, waitRun, waitStep, PState.spawn, PState.init, upd, sent]
+    let cfg : Cfg := ⟨false, false, false⟩
+    let s := v19Trace cfg
+    Reach cfg s ∧ s.wait = .returned (some (0, .fatal)) ∧ s.core 1 = .sending (some .terminate)
+      ∧ ∀ s', Steps cfg s s' → s'.core 1 = .sending (some .terminate) := by
+  intro cfg s
+  have h1 : s.core 1 = .sending (some .terminate) := by
+    simp [s, cfg, v19Trace, waitRun, waitStep, PState.spawn, PState.init, upd, sent]
+  refine ⟨v19Trace_reach _, ?_, h1, ?_⟩
+  · simp [s, cfg, v19Trace, waitRun, waitStep, PState.spawn, PState.init, upd, sent]
+  · intro s' hs
+    refine sending_unlisted_stuck_forever (cfg := cfg) rfl hs 1 _ h1 ?_ ?_ ?_ <;>
+      simp [s, cfg, v19Trace, waitRun, waitStep, PState.spawn, PState.init, upd, sent, snapshotOf]
 
 example : (v19Trace Cfg.fixed).core 1 = .signalled (some .terminate) ∧
     (v19Trace Cfg.fixed).wait = .returned (some (0, .fatal)) := by
